@@ -325,7 +325,7 @@ func (s *sysB) apply() {
 		sch[i].Strategy = proxyv1alpha1.LimitStrategy(s.strat)
 	}
 	if s.other {
-		sch = append(sch, mif("other", 1))
+		sch = append(sch, mif("S", 1))
 	}
 	s.lim.Sync(spec(sch...))
 }
@@ -335,6 +335,7 @@ func specB() xstate.Spec { return specBMode("") }
 // specBMode: mode "remote" = the gateway runs with the remote rate limiter selected but no limiter server to talk to
 // (no client set): every schema falls back to its local limiter through Load()'s other branch - the local limit binds
 // there exactly as in local mode
+// (the second schema is named "S": a name that differs from "s" only in case is another schema)
 func specBMode(mode string) xstate.Spec {
 	kinds := []string{"mif1", "mif2", "mif0", "tb", "exempt", "absent"}
 	name := "reconfiguration-histories"
@@ -399,7 +400,7 @@ func specBMode(mode string) xstate.Spec {
 					if !s.other {
 						return nil
 					}
-					fc = s.lim.GetOrDefault("other")
+					fc = s.lim.GetOrDefault("S")
 				} else {
 					fc = s.lim2.GetOrDefault("s")
 				}
